@@ -1,7 +1,7 @@
 """C01 / C33 / C26 / C27: the auto-pipelined connection as seen from outside.
 PipeScenario.tla (exhaustive small model over the trace alphabet, negative configs, scenario generation),
 harness/cmd/pipedrv (real client over fakeredis, traces), PipeTrace.tla (trace validation with the invariants of
-PipeObs.tla), Builder.tla (C33 a).  See proposed/design_pipeobs.md."""
+PipeObs.tla), Builder.tla (C33 a).  See design/pipeobs.md."""
 import concurrent.futures, glob, hashlib, json, os, random, re, shutil, tempfile
 from lib import vlib
 
